@@ -320,6 +320,30 @@ HISTORY_R11 = {
 }
 
 
+HISTORY_R12 = {
+    "C01-r12m1": "missed at first -> a grammar with bounded lists that generate their own elements (ListSizeBetweenWithoutListOperations) beside a WeightedStringHandler field: foreign errors are reported",
+    "C01-r12m2": "missed at first -> the same grammar: an all-zero row of the probability matrix (the chooser's uniform fall-back)",
+    "C02-r12m1": "missed at first -> genomes most of whose genes sit at the top / bottom of the gene range, through GE and the stack representation",
+    "C04-r12m1": "missed at first -> integer ranges wider than a thousand values: every value is produced by some draw",
+    "C04-r12m2": "missed at first -> after creations in which a production failed, the grammar's rules still list every production",
+    "C07-r12m2": "missed at first -> a Dependent on (a bool, a node): genotypes mapped in one order and again in another (ctxgrammar.registers_grammar)",
+    "C08-r12m1": "missed at first -> sources created without a seed argument in the cross-process battery",
+    "C08-r12m2": "missed at first -> a grammar with StringSizeBetween over an alphabet of characters in the cross-process battery",
+    "C09-r12m1": "missed at first -> a fitness function with transient failures (NaN the first time): cached NaN values stay what they are under steps that evaluate their input",
+    "C10-r12m1": "missed at first -> a start symbol in the middle of a hierarchy (rules that cannot be reached from it) under the read-only usable_grammar() guard",
+    "C11-r12m2": "missed at first -> the ORDER of the root's type index (the order a traversal meets the nodes)",
+    "C12-r12m1": "missed at first -> a single-objective tracker over a problem with several components whose aggregates tie",
+    "C13-r12m1": "first detected only as a broken correspondence (no failing input): directions re-declared after construction were added to the aggregate lines",
+    "C13-r12m2": "missed at first -> NaN / inf fitness values: the counter equals the number of invocations",
+    "C14-r12m2": "missed at first (the search never returns) -> lexicase GP searches on a problem with NaN objectives in a fresh interpreter under a time limit",
+    "C16-r12m1": "missed at first -> ElitismStep over UNEVALUATED individuals whose genotypes all print alike",
+    "C16-r12m2": "missed at first -> fitness functions that return numpy scalars (float32, int64, unsigned): a perfect 0 under minimisation",
+    "C18-r12m1": "the harness tripped over the raising primitive at first -> every draw of the stream comparison is total, and a primitive that raises for valid arguments is reported",
+    "C19-r12m1": "the harness tripped over the shorter weights table at first -> the table is read tolerantly (non-productions default to their declared weight); parentless classes as members of a Union, one switched off",
+    "C20-r12m1": "missed at first -> registrations through ProgressTracker.evaluate_single (what Population uses) of individuals that already carry a fitness",
+}
+
+
 def main():
     old = (VERIF / "seeded/INDEX.md").read_text() if (VERIF / "seeded/INDEX.md").exists() else ""
     hist = {}
@@ -337,6 +361,7 @@ def main():
     hist.update(HISTORY_R9)
     hist.update(HISTORY_R10)
     hist.update(HISTORY_R11)
+    hist.update(HISTORY_R12)
     rows, caught, neutralised = [], 0, []
     dirs = sorted(p for p in (VERIF / "seeded").iterdir() if p.is_dir())
     for d in dirs:
@@ -368,8 +393,8 @@ against scratch copies (`VERIF_REPO`).  All {n} changes keep the repository's fa
 Round 1: {r1} changes (`Cxx-mK`); round 2: {rn(2)} changes (`Cxx-r2mK`), whose authors were asked to look beyond the obvious function;
 round 3: {rn(3)} changes (`Cxx-r3mK`), whose authors were told that a randomised differential test on small inputs exists and asked for
 rarely used library features, narrow triggers and state carried between calls; round 4: {rn(4)} changes (`Cxx-r4mK`), same brief plus the list of
-everything tried before for that property ("find something genuinely different"); rounds 5 to 11: {rn(5)}, {rn(6)}, {rn(7)}, {rn(8)}, {rn(9)}, {rn(10)} and {rn(11)} changes
-(`Cxx-r5mK` ... `Cxx-r11mK`), same brief, each with the ideas of all earlier rounds listed as already tried.
+everything tried before for that property ("find something genuinely different"); rounds 5 to 12: {rn(5)}, {rn(6)}, {rn(7)}, {rn(8)}, {rn(9)}, {rn(10)}, {rn(11)} and {rn(12)} changes
+(`Cxx-r5mK` ... `Cxx-r12mK`), same brief, each with the ideas of all earlier rounds listed as already tried.
 
 **{caught} of {n} are detected by the quick check of the property they break** ({len(neutralised)} more were made harmless by later `fix:` commits in /repo and are listed as n/a) (the `history` column says which were missed on their first evaluation and what was strengthened).
 
